@@ -1,769 +1,195 @@
 package main
 
-// C12: life-cycle channels (K4) and the fatal-shutdown closer (K5).
+// C12: Close (K4), the constructor and the fatal-shutdown closer (K4-chans, K5),
+// notes and the fixture.
 
 import (
-	"fmt"
 	"go/token"
 	"go/types"
-	"sort"
 	"strings"
 
 	"golang.org/x/tools/go/ssa"
 )
 
-func c12ChanField(f FieldID) string { return "field:" + f.Type + "." + f.Field }
+func (x *c12) checkClose() {
+	p := x.p
+	fn := x.cmClose
+	fname := FuncName(p, fn)
+	cGuard := fname + " close(stopped) guarded"
+	cWait := fname + " wait then retErr"
+	cTake := fname + " takes running"
+	cOnce := fname + " close(closeCh) once"
+	for _, c := range []string{cGuard, cWait, cTake} {
+		x.seen("C12.K4-stopped", c, p.Pos(fn.Pos()))
+	}
+	x.seen("C12.K4-closech", cOnce, p.Pos(fn.Pos()))
 
-func c12IsClose(in ssa.Instruction, ch string) bool {
-	ci, ok := in.(ssa.CallInstruction)
-	if !ok || builtinName(ci) != "close" || len(ci.Common().Args) != 1 {
-		return false
-	}
-	return chanIdent(ci.Common().Args[0]) == ch
-}
-
-func c12Join(m map[string]bool) string {
-	var s []string
-	for k := range m {
-		s = append(s, k)
-	}
-	sort.Strings(s)
-	return strings.Join(s, "; ")
-}
-
-// c12WaitsOn: every return of fn is dominated by a plain receive on channel ch.
-func c12WaitsOn(fn *ssa.Function, ch string) bool {
-	var rs []*ssa.UnOp
-	allInstrs(fn, func(in ssa.Instruction) {
-		if u, ok := in.(*ssa.UnOp); ok && u.Op == token.ARROW && chanIdent(u.X) == ch {
-			rs = append(rs, u)
-		}
-	})
-	rets := c12Returns(fn)
-	if len(rets) == 0 {
-		return false
-	}
-	for _, ret := range rets {
-		ok := false
-		for _, u := range rs {
-			if instrDominates(u, ret) {
-				ok = true
-			}
-		}
-		if !ok {
-			return false
-		}
-	}
-	return true
-}
-
-func (x *c12) checkStopped() {
-	r, p := x.r, x.p
-	stopped := c12ChanField(x.cmStopped)
-
-	// (a) every close(stopped) is on the success edge of the running test-and-set
-	nSites := 0
-	for _, fn := range p.FuncsOfPkg("concurrency") {
-		own := c12OwnEdges(fn, x.cmRunning)
-		for _, cl := range closeSites(fn) {
-			if cl.Chan != stopped {
-				continue
-			}
-			nSites++
-			r.Check(c12AnyDominates(own, cl.Instr.Block()), "C12.K4-stopped", FuncName(p, fn)+" close(stopped) guarded", x.pos(cl.Instr),
-				"close(stopped) happens only after this caller switched running from false to true (at most one close per manager)",
-				"close(stopped) is not dominated by the success edge of the atomic test-and-set of running: Run and Close (or two Close calls) can both close it — panic — or it is closed while the manager was never owned")
-		}
-	}
-	if nSites == 0 {
-		r.Violation("C12.K4-stopped", FuncName(p, x.cmRun)+" close(stopped) guarded", p.Pos(x.cmRun.Pos()), "stopped is never closed: Close and WaitUntilShutdown never return")
-	}
-
-	// (b) Run: closes stopped on every owned return, after retErr was stored
-	{
-		fn := x.cmRun
-		own := c12OwnEdges(fn, x.cmRunning)
-		const (
-			bStored = 1 << 0
-			bReg    = 1 << 1
-			bClosed = 1 << 2
-		)
-		probs := map[string]bool{}
-		nStore := 0
-		fl := &c12Flow{Fn: fn, Entry: 1,
-			Instr: func(in ssa.Instruction, replay bool, st uint64) uint64 {
-				if s, ok := in.(*ssa.Store); ok {
-					if fa, ok := s.Addr.(*ssa.FieldAddr); ok && fieldIDOfAddr(fa) == x.cmRetErr {
-						nStore++
-						return mapStates(st, func(s int) int {
-							if s&bClosed != 0 {
-								probs["retErr is stored at "+x.pos(in)+" after stopped was closed: a Close call released by stopped can read the old value"] = true
-							}
-							return s | bStored
-						})
-					}
-				}
-				if !c12IsClose(in, stopped) {
-					return st
-				}
-				if _, isDefer := in.(*ssa.Defer); isDefer {
-					if !replay {
-						return mapStates(st, func(s int) int { return s | bReg })
-					}
-					return mapStates(st, func(s int) int {
-						if s&bReg == 0 {
-							return s
-						}
-						return s | bClosed
-					})
-				}
-				return mapStates(st, func(s int) int { return s | bClosed })
-			}}
-		fl.Run()
-		fl.AtReturns(func(ret *ssa.Return, st uint64) {
-			if !c12AnyDominates(own, ret.Block()) {
-				return
-			}
-			c12ForStates(st, func(s int) {
-				if s&bClosed == 0 {
-					probs["Run can return at "+x.pos(ret)+" after winning running without closing stopped: Close / WaitUntilShutdown block forever"] = true
-				} else if s&bStored == 0 {
-					probs["Run can close stopped and return at "+x.pos(ret)+" without having stored retErr: Close returns nil instead of the joined error"] = true
-				}
-			})
-		})
-		r.Check(len(probs) == 0, "C12.K4-stopped", FuncName(p, fn)+" retErr then close(stopped)", p.Pos(fn.Pos()),
-			"on every owned return retErr is stored and then stopped is closed", c12Join(probs))
-	}
-
-	// (c,d) Close
-	{
-		fn := x.cmClose
-		own := c12OwnEdges(fn, x.cmRunning)
-		isOwn := func(from, to *ssa.BasicBlock) bool {
-			for _, e := range own {
-				if e.From == from && e.To() == to {
-					return true
-				}
-			}
-			return false
-		}
-		isWait := func(in ssa.Instruction) bool {
-			switch v := in.(type) {
-			case *ssa.UnOp:
-				return v.Op == token.ARROW && chanIdent(v.X) == stopped
-			case *ssa.Call:
-				if f := staticCallee(v); f != nil && x.p.InModule(f) && len(f.Blocks) > 0 {
-					return c12WaitsOn(f, stopped)
-				}
-			}
-			return false
-		}
-		const (
-			bOwn    = 1 << 0
-			bClosed = 1 << 1
-			bWaited = 1 << 2
-			bTried  = 1 << 3
-		)
-		isTry := map[ssa.Instruction]bool{}
-		for _, e := range own {
-			isTry[e.Call] = true
-		}
-		probs := map[string]bool{}
-		nWait := 0
-		fl := &c12Flow{Fn: fn, Entry: 1,
-			Instr: func(in ssa.Instruction, replay bool, st uint64) uint64 {
-				if c12IsClose(in, stopped) {
-					if _, isDefer := in.(*ssa.Defer); isDefer && !replay {
-						return st
-					}
-					return mapStates(st, func(s int) int { return s | bClosed })
-				}
-				if isTry[in] {
-					return mapStates(st, func(s int) int { return s | bTried })
-				}
-				if isWait(in) {
-					nWait++
-					return mapStates(st, func(s int) int {
-						if s&bTried == 0 && len(own) > 0 {
-							probs["Close waits for stopped at "+x.pos(in)+" before trying to take running: on a manager that never ran nobody closes stopped and Close blocks forever instead of returning at once"] = true
-						}
-						if s&bOwn != 0 && s&bClosed == 0 {
-							probs["Close on a manager that never ran waits for stopped at "+x.pos(in)+" before closing it: it blocks forever instead of returning at once"] = true
-						}
-						return s | bWaited
-					})
-				}
-				if u, ok := in.(*ssa.UnOp); ok && u.Op == token.MUL {
-					if id, _, ok := fieldOfValue(u); ok && id == x.cmRetErr {
-						c12ForStates(st, func(s int) {
-							if s&bWaited == 0 {
-								probs["Close reads retErr at "+x.pos(in)+" before waiting for stopped: it can return before the closers finished, with a stale error"] = true
-							}
-						})
-					}
-				}
-				return st
-			},
-			Edge: func(from, to *ssa.BasicBlock, st uint64) uint64 {
-				if isOwn(from, to) {
-					return mapStates(st, func(s int) int { return s | bOwn })
-				}
-				return st
-			}}
-		fl.Run()
-		fl.AtReturns(func(ret *ssa.Return, st uint64) {
-			c12ForStates(st, func(s int) {
-				if s&bWaited == 0 {
-					probs["Close can return at "+x.pos(ret)+" without waiting for stopped: it returns before the closers finished"] = true
-				}
-				if s&bOwn != 0 && s&bClosed == 0 {
-					probs["Close wins running at a never-run manager but returns at "+x.pos(ret)+" without closing stopped"] = true
-				}
-			})
-			for _, root := range c12ReturnRoots(ret, 0) {
-				if id, _, ok := fieldOfValue(root); !ok || id != x.cmRetErr {
-					probs["Close returns at "+x.pos(ret)+" something other than retErr (the joined runner and closer errors stored by Run)"] = true
-				}
-			}
-		})
-		r.Check(len(probs) == 0, "C12.K4-stopped", FuncName(p, fn)+" wait then retErr", p.Pos(fn.Pos()),
-			"Close closes stopped itself when it wins running, waits for stopped on every path, then returns retErr", c12Join(probs))
-		r.Check(len(own) > 0, "C12.K4-stopped", FuncName(p, fn)+" takes running", p.Pos(fn.Pos()),
-			"Close test-and-sets the same running flag as Run (a later Run is refused)",
-			"Close no longer test-and-sets RunnerCloserManager.running: Close on a manager that never ran does not prevent a later Run (or blocks forever waiting for stopped)")
-	}
-}
-
-// c12VarargVals: values stored into the backing array of a variadic slice argument.
-func c12VarargVals(v ssa.Value) []ssa.Value {
-	sl, ok := v.(*ssa.Slice)
-	if !ok {
-		return nil
-	}
-	var out []ssa.Value
-	for _, r := range refs(sl.X) {
-		if ia, ok := r.(*ssa.IndexAddr); ok {
-			for _, rr := range refs(ia) {
-				if st, ok := rr.(*ssa.Store); ok && st.Addr == ssa.Value(ia) {
-					out = append(out, st.Val)
-				}
-			}
-		}
-	}
-	return out
-}
-
-func c12ClosureOf(v ssa.Value) *ssa.Function {
-	for _, r := range c12Roots(v, nil) {
-		if mc, ok := r.(*ssa.MakeClosure); ok {
-			if f, ok := mc.Fn.(*ssa.Function); ok {
-				return f
-			}
-		}
-		if f, ok := r.(*ssa.Function); ok {
-			return f
-		}
-	}
-	return nil
-}
-
-func (x *c12) atomicBoolFields() []FieldID {
-	var out []FieldID
-	st := x.p.Named("concurrency", "RunnerCloserManager").Underlying().(*types.Struct)
+	_, st := x.structOf("RunnerCloserManager")
+	var flags []FieldID
 	for i := 0; i < st.NumFields(); i++ {
 		if namedKey(st.Field(i).Type()) == "sync/atomic.Bool" {
-			out = append(out, FieldID{x.pkg + ".RunnerCloserManager", st.Field(i).Name()})
+			flags = append(flags, FieldID{x.pkg + ".RunnerCloserManager", st.Field(i).Name()})
+		}
+	}
+	const (
+		bOwnRun   = 1 << 0
+		bTriedRun = 1 << 1
+		bStopped  = 1 << 2
+		bWaited   = 1 << 3
+		bOwnOther = 1 << 4 // won a test-and-set of a flag other than running
+		bClosedCh = 1 << 5
+	)
+	var guardFlag FieldID
+	sawTake, sawCloseCh := false, false
+	cl := &xClient{NoInline: func(f *ssa.Function) bool { return x.anchors[f] && f != fn }}
+	cl.OnBranch = func(s *xState, ifi *ssa.If, cond xVal, truth bool) bool {
+		if x.tasTried(cond, x.cmRunning) {
+			s.Client |= bTriedRun
+			sawTake = true
+			if x.tasWon(cond, truth, x.cmRunning) {
+				s.Client |= bOwnRun
+			}
+			return true
+		}
+		for _, f := range flags {
+			if f != x.cmRunning && x.tasWon(cond, truth, f) {
+				s.Client |= bOwnOther
+				guardFlag = f
+			}
+		}
+		return true
+	}
+	cl.OnOnce = func(s *xState, call *ssa.Call, entered bool) bool {
+		if entered {
+			// the body of the first Do of a sync.Once: an at-most-once guard
+			s.Client |= bOwnOther
+		}
+		return true
+	}
+	cl.OnInstr = func(s *xState, in ssa.Instruction, replay bool) bool {
+		if _, isDefer := in.(*ssa.Defer); isDefer && !replay {
+			return true
+		}
+		if x.closeOf(s, in, x.cmStopped) {
+			if s.Client&bOwnRun == 0 {
+				x.bad("C12.K4-stopped", cGuard, x.pos(in), "Close closes the shutdown channel at "+x.pos(in)+" on a path on which its own test-and-set of running did not succeed: Run and Close (or two Close calls) can both close it — panic")
+			}
+			if s.Client&bStopped != 0 {
+				x.bad("C12.K4-stopped", cGuard, x.pos(in), "Close can close the shutdown channel twice")
+			}
+			s.Client |= bStopped
+		}
+		if x.closeOf(s, in, x.cmCloseCh) {
+			sawCloseCh = true
+			if s.Client&bOwnOther == 0 {
+				x.bad("C12.K4-closech", cOnce, x.pos(in), "the channel that stops the runners is closed at "+x.pos(in)+" on a path on which no atomic test-and-set of a dedicated flag succeeded: a repeated or concurrent Close closes it twice and panics")
+			}
+			if s.Client&bClosedCh != 0 {
+				x.bad("C12.K4-closech", cOnce, x.pos(in), "Close can close the channel that stops the runners twice in one call")
+			}
+			s.Client |= bClosedCh
+		}
+		switch v := in.(type) {
+		case *ssa.UnOp:
+			if v.Op == token.ARROW && x.isField(s, v.X, x.cmStopped) {
+				if s.Client&bTriedRun == 0 {
+					x.bad("C12.K4-stopped", cWait, x.pos(in), "Close waits for the shutdown channel at "+x.pos(in)+" before trying to take running: on a manager that never ran nobody closes that channel and Close blocks forever instead of returning at once")
+				} else if s.Client&bOwnRun != 0 && s.Client&bStopped == 0 {
+					x.bad("C12.K4-stopped", cWait, x.pos(in), "Close on a manager that never ran waits for the shutdown channel at "+x.pos(in)+" before closing it: it blocks forever instead of returning at once")
+				}
+				s.Client |= bWaited
+			}
+			if v.Op == token.MUL {
+				if fa, ok := v.X.(*ssa.FieldAddr); ok && fieldIDOfAddr(fa) == x.cmRetErr && s.Client&bWaited == 0 {
+					x.bad("C12.K4-stopped", cWait, x.pos(in), "Close reads the stored error at "+x.pos(in)+" before waiting for the shutdown channel: it can return before the closers finished, with a stale error")
+				}
+			}
+		case *ssa.Select:
+			for k, sc := range v.States {
+				_ = k
+				if sc.Dir == types.RecvOnly && x.isField(s, sc.Chan, x.cmStopped) && len(v.States) == 1 && v.Blocking {
+					s.Client |= bWaited
+				}
+			}
+		}
+		return true
+	}
+	cl.OnReturn = func(s *xState, ret *ssa.Return, res []xVal) {
+		if s.Client&bWaited == 0 {
+			x.bad("C12.K4-stopped", cWait, x.pos(ret), "Close can return at "+x.pos(ret)+" without waiting for the shutdown channel: it returns before the closers finished")
+		}
+		if s.Client&bOwnRun != 0 && s.Client&bStopped == 0 {
+			x.bad("C12.K4-stopped", cWait, x.pos(ret), "Close wins running at a never-run manager but returns at "+x.pos(ret)+" without closing the shutdown channel")
+		}
+		if s.Client&bOwnOther != 0 && s.Client&bClosedCh == 0 {
+			x.bad("C12.K4-closech", cOnce, x.pos(ret), "the first Close can return at "+x.pos(ret)+" without closing the channel that stops the runners: Close during Run waits until they end by themselves")
+		}
+		if len(res) == 1 && !(res[0].K == xField && res[0].Fld == x.cmRetErr) {
+			x.bad("C12.K4-stopped", cWait, x.pos(ret), "Close returns at "+x.pos(ret)+" something other than the stored error (the joined runner and closer errors)")
+		}
+	}
+	ex := newXplorer(p, x.ssaPkg, cl)
+	ex.Explore(fn, nil, 0)
+	if !sawTake {
+		x.bad("C12.K4-stopped", cTake, p.Pos(fn.Pos()), "Close no longer test-and-sets the running flag of the manager: Close on a manager that never ran does not prevent a later Run (or blocks forever waiting for the shutdown channel)")
+	}
+	if !sawCloseCh {
+		x.bad("C12.K4-closech", cOnce, p.Pos(fn.Pos()), "Close no longer closes the channel that stops the runners: Close during Run does not make the runners stop, so it waits until they end by themselves")
+	}
+	// nobody else writes the guard flag
+	if guardFlag != (FieldID{}) {
+		for _, f := range p.FuncsOfPkg("concurrency") {
+			if x.tree(fn)[f] {
+				continue
+			}
+			for _, name := range []string{"Store", "Swap", "CompareAndSwap"} {
+				for _, c := range c12FlagCalls(f, guardFlag, name) {
+					x.bad("C12.K4-closech", cOnce, x.pos(c), "the flag that guards the close of the channel stopping the runners is also written in "+FuncName(p, f)+": the first Close may then skip the close and Close during Run no longer stops the runners")
+				}
+			}
+		}
+	}
+}
+
+// throughFields replaces roots that are loads of a struct field of the
+// package's types by the roots of everything the package stores in that field.
+func (x *c12) throughFields(roots []ssa.Value, depth int) []ssa.Value {
+	var out []ssa.Value
+	for _, r := range roots {
+		id, _, ok := fieldOfValue(r)
+		if _, isAddr := r.(*ssa.FieldAddr); !ok || isAddr || depth > 2 || !strings.HasPrefix(id.Type, x.pkg+".") {
+			out = append(out, r)
+			continue
+		}
+		n := 0
+		for _, f := range x.p.FuncsOfPkg("concurrency") {
+			allInstrs(f, func(in ssa.Instruction) {
+				if st, ok := in.(*ssa.Store); ok {
+					if fa, ok := st.Addr.(*ssa.FieldAddr); ok && fieldIDOfAddr(fa) == id {
+						n++
+						out = append(out, x.throughFields(c12Roots(st.Val, nil), depth+1)...)
+					}
+				}
+			})
+		}
+		if n == 0 {
+			out = append(out, r)
 		}
 	}
 	return out
 }
 
-func (x *c12) checkCloseCh() {
-	r, p := x.r, x.p
-	closeCh := c12ChanField(x.cmCloseCh)
-	// (a) guarded close in Close, executed on the owning edge
-	{
-		fn := x.cmClose
-		construct := FuncName(p, fn) + " close(closeCh) once"
-		var own []c12Edge
-		for _, f := range x.atomicBoolFields() {
-			own = append(own, c12OwnEdges(fn, f)...)
+// timerDurationOf: if ch (evaluated) is the channel of a timer — X.NewTimer(d).C(),
+// time.NewTimer(d).C, X.After(d) — returns d evaluated.
+func (x *c12) timerDurationOf(st *xState, ch ssa.Value) (xVal, bool) {
+	ev := st.Eval(ch)
+	durOf := func(v xVal) (xVal, bool) {
+		if v.K != xAtom || v.F == nil {
+			return xVal{}, false
 		}
-		n := 0
-		probs := map[string]bool{}
-		for _, f := range p.FuncsOfPkg("concurrency") {
-			for _, cl := range closeSites(f) {
-				if cl.Chan != closeCh {
-					continue
-				}
-				if f != fn {
-					var o2 []c12Edge
-					for _, fld := range x.atomicBoolFields() {
-						o2 = append(o2, c12OwnEdges(f, fld)...)
-					}
-					if !c12AnyDominates(o2, cl.Instr.Block()) {
-						probs["closeCh is also closed in "+FuncName(p, f)+" without a test-and-set guard: a second close panics"] = true
-					}
-					continue
-				}
-				n++
-				if !c12AnyDominates(own, cl.Instr.Block()) {
-					probs["close(closeCh) at "+x.pos(cl.Instr)+" is not guarded by the success edge of an atomic test-and-set: a repeated or concurrent Close closes it twice and panics"] = true
-				}
-			}
-		}
-		if n == 0 {
-			probs["Close no longer closes closeCh: Close during Run does not make the runners stop, so it waits until they end by themselves"] = true
-		}
-		r.Check(len(probs) == 0, "C12.K4-closech", construct, p.Pos(fn.Pos()), "closeCh closed exactly by the first Close", c12Join(probs))
-	}
-	// (b) Run registers the stop runner before starting the inner manager
-	{
-		fn := x.cmRun
-		construct := FuncName(p, fn) + " stop runner on closeCh"
-		var addCall *ssa.Call
-		var stopFn *ssa.Function
-		allInstrs(fn, func(in ssa.Instruction) {
-			call, ok := in.(*ssa.Call)
-			if !ok || !callIs(call, x.pkg, "RunnerManager", "Add") || len(call.Call.Args) < 2 {
-				return
-			}
-			for _, v := range c12VarargVals(call.Call.Args[1]) {
-				if f := c12ClosureOf(v); f != nil {
-					allInstrs(f, func(j ssa.Instruction) {
-						if sel, ok := j.(*ssa.Select); ok && sel.Blocking {
-							for _, st := range sel.States {
-								if st.Dir == types.RecvOnly && chanIdent(st.Chan) == closeCh {
-									addCall, stopFn = call, f
-								}
-							}
-						}
-					})
-				}
-			}
-		})
-		if addCall == nil {
-			// maybe a plain receive on closeCh
-			r.Violation("C12.K4-closech", construct, p.Pos(fn.Pos()), "Run no longer adds to the inner manager a runner that waits (select) for closeCh: Close during Run cannot stop the runners and blocks until they end by themselves")
-			return
-		}
-		probs := map[string]bool{}
-		// the stop runner: select{ctx.Done, closeCh}, then returns
-		allInstrs(stopFn, func(j ssa.Instruction) {
-			sel, ok := j.(*ssa.Select)
-			if !ok || !sel.Blocking {
-				return
-			}
-			hasDone := false
-			for _, st := range sel.States {
-				if call, ok := st.Chan.(*ssa.Call); ok && st.Dir == types.RecvOnly && call.Call.IsInvoke() && call.Call.Method.Name() == "Done" && len(stopFn.Params) > 0 && call.Call.Value == ssa.Value(stopFn.Params[0]) {
-					hasDone = true
-				}
-			}
-			if !hasDone {
-				probs["the stop runner does not also wait for its own ctx.Done(): when the user's runners have all returned it keeps the inner manager (and so Run) from returning until Close is called"] = true
-			}
-			if c12InAnyCycle(sel.Block()) {
-				probs["the stop runner loops around its select instead of returning"] = true
-			}
-		})
-		// before the inner manager starts
-		started := false
-		allInstrs(fn, func(in ssa.Instruction) {
-			switch v := in.(type) {
-			case *ssa.Go:
-				if f := staticCallee(v); f != nil {
-					inner := false
-					allInstrs(f, func(j ssa.Instruction) {
-						if c, ok := j.(*ssa.Call); ok && x.isInnerRunCall(c) {
-							inner = true
-						}
-					})
-					if inner {
-						started = true
-						if !instrDominates(addCall, v) && !c12IsGuardOnly(addCall, v) {
-							probs["the inner manager is started at "+x.pos(v)+" on a path that does not pass the registration of the stop runner"] = true
-						}
-					}
-				}
-			case *ssa.Call:
-				if x.isInnerRunCall(v) {
-					started = true
-					if !instrDominates(addCall, v) && !c12IsGuardOnly(addCall, v) {
-						probs["the inner manager is run at "+x.pos(v)+" on a path that does not pass the registration of the stop runner"] = true
-					}
-				}
-			}
-		})
-		_ = started
-		// guard conditions of the registration
-		for _, dc := range domConds(addCall.Block()) {
-			if call, _, ok := boolCallCond(dc.If.Cond, dc.Branch); ok && callIs(call, "sync/atomic", "Bool", call.Call.Value.Name()) {
-				continue
-			}
-			if call, _, ok := boolCallCond(dc.If.Cond, dc.Branch); ok {
-				if obj := calleeObj(call); obj != nil && obj.Pkg() != nil && obj.Pkg().Path() == "sync/atomic" {
-					continue
-				}
-			}
-			cmp, ok := decodeCond(dc.If.Cond, dc.Branch)
-			if !ok {
-				r.Undecide("%s: the registration of the stop runner is under a condition the check cannot classify (%s)", construct, x.pos(dc.If))
-				return
-			}
-			lenV, k, op := cmp.X, cmp.Y, cmp.Op
-			if _, isC := c12ConstInt(lenV); isC {
-				lenV, k = cmp.Y, cmp.X
-				switch op {
-				case token.LSS:
-					op = token.GTR
-				case token.GTR:
-					op = token.LSS
-				case token.LEQ:
-					op = token.GEQ
-				case token.GEQ:
-					op = token.LEQ
-				}
-			}
-			s, off, isLen := c12LenExpr(lenV)
-			kc, isC := c12ConstInt(k)
-			if !isLen || !isC || !c12IsFieldLoad(s, nil, x.rmRunners) {
-				r.Undecide("%s: the registration of the stop runner is under a condition the check cannot classify (%s)", construct, x.pos(dc.If))
-				return
-			}
-			kc -= off
-			okGuard := (op == token.GTR && kc <= 0) || (op == token.NEQ && kc == 0) || (op == token.GEQ && kc <= 1)
-			if !okGuard {
-				probs[fmt.Sprintf("the stop runner is registered only if len(runners) %s %d: with a non-empty set of runners below that bound, Close during Run does not stop them (it blocks until they end by themselves)", op, kc)] = true
-			}
-		}
-		r.Check(len(probs) == 0, "C12.K4-closech", construct, x.pos(addCall),
-			"a runner returning on closeCh or ctx.Done is registered whenever there are runners, before the inner manager starts", c12Join(probs))
-	}
-}
-
-// c12IsGuardOnly: a does not dominate b only because a sits under conditions
-// (if len(runners) > 0 { add }); i.e. a's block is followed by b's block on
-// every path from a, and a precedes b (a's block reaches b, b's does not reach a).
-func c12IsGuardOnly(a, b ssa.Instruction) bool {
-	return c12Reaches(a.Block(), b.Block()) && !c12Reaches(b.Block(), a.Block())
-}
-
-func (x *c12) checkFatal() {
-	r, p := x.r, x.p
-	closeFatal := c12ChanField(x.cmCloseFatal)
-	// the grace period parameter of the constructor
-	var graceParam *ssa.Parameter
-	for _, pa := range x.cmNew.Params {
-		if pt, ok := pa.Type().Underlying().(*types.Pointer); ok && namedKey(pt.Elem()) == "time.Duration" {
-			graceParam = pa
-		}
-	}
-	if graceParam == nil {
-		r.Undecide("NewRunnerCloserManager no longer takes the grace period as *time.Duration")
-		return
-	}
-
-	// (a) call sites of fatalShutdownFn
-	type site struct {
-		fn   *ssa.Function
-		call ssa.CallInstruction
-	}
-	var sites []site
-	for _, fn := range p.FuncsOfPkg("concurrency") {
-		allInstrs(fn, func(in ssa.Instruction) {
-			ci, ok := in.(ssa.CallInstruction)
-			if !ok || ci.Common().IsInvoke() {
-				return
-			}
-			if id, _, ok := fieldOfValue(ci.Common().Value); ok && id == x.cmFatalFn {
-				sites = append(sites, site{fn, ci})
-			}
-		})
-	}
-	if len(sites) == 0 {
-		r.Violation("C12.K5-fatal", "concurrency fatalShutdownFn call", p.Pos(x.cmNew.Pos()), "fatalShutdownFn is never called: closers that outlast the grace period are not cut short")
-		return
-	}
-	var fatalFn *ssa.Function
-	for _, s := range sites {
-		fname := FuncName(p, s.fn)
-		construct := fname + " fatalShutdownFn on timer case"
-		probs := map[string]bool{}
-		var sel *SelectInfo
-		allInstrs(s.fn, func(in ssa.Instruction) {
-			if se, ok := in.(*ssa.Select); ok && se.Blocking {
-				si := decodeSelect(se)
-				for _, cs := range si.Cases {
-					if cs.Body != nil && len(cs.Body.Preds) == 1 && cs.Body.Dominates(s.call.Block()) {
-						sel = si
-					}
-				}
-			}
-		})
-		if _, isDefer := s.call.(*ssa.Defer); isDefer || sel == nil {
-			r.Violation("C12.K5-fatal", construct, x.pos(s.call), "fatalShutdownFn is called outside a case of a blocking select: it fires regardless of whether the closers outlasted the grace period")
-			continue
-		}
-		fatalFn = s.fn
-		var timerCase, releaseCase *SelCase
-		sharedBody := false
-		for i := range sel.Cases {
-			cs := &sel.Cases[i]
-			for j := range sel.Cases {
-				if i != j && sel.Cases[j].Body == cs.Body {
-					sharedBody = true
-				}
-			}
-			if cs.Dir != types.RecvOnly {
-				continue
-			}
-			if cs.Chan == closeFatal {
-				releaseCase = cs
-			} else if d := x.timerDuration(cs.ChanV); d != nil {
-				timerCase = cs
-				ok := false
-				if u, isU := d.(*ssa.UnOp); isU && u.Op == token.MUL && c12OnlyRoot(u.X, nil, graceParam) {
-					ok = true
-				}
-				if !ok {
-					probs["the timer of the fatal closer at "+x.pos(sel.Sel)+" is not set to *gracePeriod (the constructor's grace period): the fatal action fires earlier or later than the grace period"] = true
-				}
-			}
-		}
-		if timerCase == nil {
-			probs["the select around the fatalShutdownFn call has no grace-timer case"] = true
-		}
-		if releaseCase == nil {
-			probs["the select around the fatalShutdownFn call has no case on closeFatalShutdown: the fatal closer can only end through its timer, so the fatal action fires even when all closers finished in time"] = true
-		}
-		if timerCase != nil && !sharedBody {
-			if !(timerCase.Body != nil && len(timerCase.Body.Preds) == 1 && timerCase.Body.Dominates(s.call.Block())) {
-				probs["fatalShutdownFn is called at "+x.pos(s.call)+" on a case other than the grace timer (e.g. when closeFatalShutdown is closed): it fires although the closers finished within the grace period"] = true
-			}
-			// always on the timer case
-			body := timerCase.Body
-			const bT, bF = 1, 2
-			fl := &c12Flow{Fn: s.fn, Entry: 1,
-				Instr: func(in ssa.Instruction, replay bool, st uint64) uint64 {
-					if in == s.call.(ssa.Instruction) {
-						return mapStates(st, func(s int) int { return s | bF })
-					}
-					return st
-				},
-				Edge: func(from, to *ssa.BasicBlock, st uint64) uint64 {
-					if to == body {
-						return mapStates(st, func(s int) int { return s | bT })
-					}
-					return st
-				}}
-			fl.Run()
-			fl.AtReturns(func(ret *ssa.Return, st uint64) {
-				c12ForStates(st, func(s int) {
-					if s&bT != 0 && s&bF == 0 {
-						probs["the grace timer case can return at "+x.pos(ret)+" without calling fatalShutdownFn: closers outlasting the grace period are not cut short"] = true
-					}
-				})
-			})
-		} else if sharedBody {
-			r.Undecide("%s: select cases share a body", construct)
-		}
-		r.Check(len(probs) == 0, "C12.K5-fatal", construct, x.pos(s.call), "fatalShutdownFn is called exactly on the *gracePeriod timer case; the other case is closeFatalShutdown", c12Join(probs))
-	}
-
-	// (b) registration iff gracePeriod != nil
-	if fatalFn != nil {
-		construct := FuncName(p, x.cmNew) + " registers fatal closer iff grace period"
-		var reg *ssa.Call
-		allInstrs(x.cmNew, func(in ssa.Instruction) {
-			call, ok := in.(*ssa.Call)
-			if !ok || staticCallee(call) != x.cmAddCloser || len(call.Call.Args) < 2 {
-				return
-			}
-			for _, v := range c12VarargVals(call.Call.Args[1]) {
-				if c12ClosureOf(v) == fatalFn {
-					reg = call
-				}
-			}
-		})
-		if fatalFn.Parent() != x.cmNew {
-			r.Undecide("%s: the function calling fatalShutdownFn is not a closure of the constructor", construct)
-		} else if reg == nil {
-			r.Violation("C12.K5-fatal", construct, p.Pos(x.cmNew.Pos()), "the constructor no longer registers the fatal-shutdown closer with AddCloser: the fatal action never fires")
-		} else {
-			guarded := false
-			for _, dc := range domConds(reg.Block()) {
-				if cmp, ok := decodeCond(dc.If.Cond, dc.Branch); ok && cmp.Op == token.NEQ {
-					a, b := cmp.X, cmp.Y
-					if isNilConst(a) {
-						a, b = b, a
-					}
-					if isNilConst(b) && c12OnlyRoot(a, nil, graceParam) {
-						guarded = true
-					}
-				}
-			}
-			r.Check(guarded, "C12.K5-fatal", construct, x.pos(reg), "fatal closer registered exactly when gracePeriod != nil",
-				"the fatal closer is registered without the gracePeriod != nil guard: with the grace period unset it dereferences nil / fires although no grace period applies")
-		}
-	}
-
-	// (c) release when only the fatal closer remains
-	{
-		fn := x.cmRun
-		construct := FuncName(p, fn) + " close(closeFatalShutdown) when one result outstanding"
-		var sites []ssa.Instruction
-		for _, f := range p.FuncsOfPkg("concurrency") {
-			for _, cl := range closeSites(f) {
-				if cl.Chan == closeFatal {
-					if f != fn {
-						r.Undecide("closeFatalShutdown is closed outside RunnerCloserManager.Run (%s)", FuncName(p, f))
-						return
-					}
-					sites = append(sites, cl.Instr)
-				}
-			}
-		}
-		if len(sites) == 0 {
-			r.Violation("C12.K5-fatal", construct, p.Pos(fn.Pos()), "closeFatalShutdown is never closed: the fatal closer ends only through its timer, so Run lasts the whole grace period and the fatal action fires although the closers finished in time")
-			return
-		}
-		loops := c12Loops(fn)
-		probs := map[string]bool{}
-		for _, cs := range sites {
-			l := c12LoopOf(loops, cs.Block())
-			if _, isDefer := cs.(*ssa.Defer); isDefer || l == nil || l.LenField != x.cmClosers || l.Problem != "" {
-				r.Undecide("%s: the close at %s is not inside a counted collection loop over closers", construct, x.pos(cs))
-				return
-			}
-			// the receive of the loop
-			var recv *ssa.UnOp
-			for b := range l.Blocks {
-				for _, in := range b.Instrs {
-					if u, ok := in.(*ssa.UnOp); ok && u.Op == token.ARROW {
-						if recv != nil {
-							r.Undecide("%s: several receives in the collection loop", construct)
-							return
-						}
-						recv = u
-					}
-				}
-			}
-			if recv == nil {
-				r.Undecide("%s: the loop around the close at %s collects nothing", construct, x.pos(cs))
-				return
-			}
-			// guard: idx == len(closers)+g on a dominating edge inside the loop
-			found := false
-			for _, dc := range domConds(cs.Block()) {
-				if !l.Blocks[dc.If.Block()] || dc.If == l.If {
-					continue
-				}
-				cmp, ok := decodeCond(dc.If.Cond, dc.Branch)
-				if !ok {
-					continue
-				}
-				a, b := cmp.X, cmp.Y
-				pk, isIdx := c12PhiPlus(a, l.Phi)
-				if !isIdx {
-					a, b = b, a
-					pk, isIdx = c12PhiPlus(a, l.Phi)
-				}
-				if !isIdx {
-					continue
-				}
-				// value of the loop's tested index in this iteration = phi + (Idx-phi);
-				// the guard compares phi+pk: express it relative to the tested index
-				ik, _ := c12PhiPlus(l.Idx, l.Phi)
-				idxAdd := pk - ik // guard value = Idx + idxAdd
-				s, g, isLen := c12LenExpr(b)
-				if !isLen || !c12IsFieldLoad(s, nil, x.cmClosers) {
-					continue
-				}
-				found = true
-				// Normalise the guard to "tested index ⋈ len(closers)+thr". The tested
-				// index runs over First .. len(closers)+Off-1, one step per iteration.
-				op := cmp.Op
-				if a != cmp.X { // operands were swapped
-					switch op {
-					case token.LSS:
-						op = token.GTR
-					case token.GTR:
-						op = token.LSS
-					case token.LEQ:
-						op = token.GEQ
-					case token.GEQ:
-						op = token.LEQ
-					}
-				}
-				thr := g - idxAdd
-				last := l.Off - 1 // index of the last iteration, relative to len(closers)
-				switch op {
-				case token.EQL:
-				case token.GEQ, token.GTR:
-					if op == token.GTR {
-						thr++
-					}
-					// true from thr to the last iteration: once iff thr is the last one
-					if thr < last {
-						probs[fmt.Sprintf("closeFatalShutdown is closed under `index %s len(closers)%+d`, which holds in %d iterations of the collection loop: the second close panics", cmp.Op, g-idxAdd, last-thr+1)] = true
-						continue
-					}
-				default:
-					probs[fmt.Sprintf("closeFatalShutdown is closed under `index %s len(closers)…`: it is closed from the first iteration on (before the other closers have finished, and more than once: panic)", cmp.Op)] = true
-					continue
-				}
-				// is the receive executed before the close within one iteration?
-				before := !reachableFrom(l.Body, map[*ssa.BasicBlock]bool{l.Header: true, recv.Block(): true})[cs.Block()]
-				if recv.Block() == cs.Block() {
-					before = instrIndex(recv) < instrIndex(cs)
-				}
-				received := thr - l.First // + len(closers)
-				if before {
-					received++
-				}
-				// Degenerate count: the fatal closer is the only closer (grace period
-				// set, no user closer; len(closers) == 1). Then "len(closers)-1
-				// results collected" holds before the first receive of the loop, and
-				// that receive can only be satisfied by the fatal closer itself: the
-				// release has to be executed in an iteration that exists for
-				// len(closers) == 1 (tested index First .. 1+Off-1) and before that
-				// iteration's receive. A release placed after the receive has
-				// collected one result more than its guard index says, so for the
-				// arithmetic to come out at len(closers)-1 its guard must name the
-				// iteration before the last one — which does not exist when there is
-				// only one closer.
-				if received == -1 {
-					at := 1 + thr // tested index at which the guard holds when len(closers) == 1
-					if at < l.First || at > 1+l.Off-1 || before {
-						where := "after"
-						if !before {
-							where = "before"
-						}
-						probs[fmt.Sprintf("closeFatalShutdown is closed %s the receive of the iteration whose index equals len(closers)%+d; the first iteration has index %d, so when the fatal-shutdown closer is the only closer (grace period set, no user closer) that iteration does not exist and the loop blocks on the fatal closer's own result without ever releasing it: Run and Close hang until the grace timer expires and the fatal action fires although no closer was pending. The release must run when len(closers)-1 results are collected and BEFORE the next receive", where, thr, l.First)] = true
-					}
-				}
-				if received != -1 {
-					probs[fmt.Sprintf("closeFatalShutdown is closed when len(closers)%+d closer results have been collected instead of len(closers)-1: too early and the fatal closer is released while closers are still running (they can outlast the grace period without the fatal action); too late and Run waits out the grace period and fires the fatal action although the closers finished", received)] = true
-				}
-			}
-			if !found {
-				r.Undecide("%s: the close at %s is not guarded by a comparison of the loop index with len(closers)", construct, x.pos(cs))
-				return
-			}
-		}
-		r.Check(len(probs) == 0, "C12.K5-fatal", construct, x.pos(sites[0]), "closed exactly once, when len(closers)-1 results have been collected", c12Join(probs))
-	}
-}
-
-// timerDuration: if ch is the channel of a timer (x.NewTimer(d).C(), time.NewTimer(d).C,
-// x.After(d)), returns d.
-func (x *c12) timerDuration(ch ssa.Value) ssa.Value {
-	durOf := func(v ssa.Value) ssa.Value {
-		call, ok := v.(*ssa.Call)
+		call, ok := v.V.(*ssa.Call)
 		if !ok {
-			return nil
+			return xVal{}, false
 		}
 		name := ""
 		if call.Call.IsInvoke() {
@@ -772,132 +198,433 @@ func (x *c12) timerDuration(ch ssa.Value) ssa.Value {
 			name = obj.Name()
 		}
 		if name != "NewTimer" && name != "After" {
-			return nil
+			return xVal{}, false
 		}
 		for _, a := range call.Call.Args {
 			if namedKey(a.Type()) == "time.Duration" {
-				return a
+				return st.EvalIn(v.F, a), true
 			}
 		}
-		return nil
+		return xVal{}, false
 	}
-	for _, root := range c12Roots(ch, nil) {
-		switch v := root.(type) {
-		case *ssa.Call:
-			if d := durOf(v); d != nil { // After(d)
-				return d
-			}
-			if v.Call.IsInvoke() && v.Call.Method.Name() == "C" {
-				for _, rr := range c12Roots(v.Call.Value, nil) {
-					if d := durOf(rr); d != nil {
-						return d
-					}
-				}
-			}
-		case *ssa.UnOp: // (*time.Timer).C field
-			if fa, ok := v.X.(*ssa.FieldAddr); ok {
-				for _, rr := range c12Roots(fa.X, nil) {
-					if d := durOf(rr); d != nil {
-						return d
-					}
-				}
-			}
+	if d, ok := durOf(ev); ok {
+		return d, true
+	}
+	if ev.K == xAtom && ev.F != nil {
+		if call, ok := ev.V.(*ssa.Call); ok && call.Call.IsInvoke() && call.Call.Method.Name() == "C" {
+			return durOf(st.EvalIn(ev.F, call.Call.Value))
 		}
 	}
-	return nil
+	if ev.K == xField && ev.Fld.Type == "time.Timer" && ev.Fld.Field == "C" && ev.Base != nil {
+		return durOf(*ev.Base)
+	}
+	return xVal{}, false
 }
 
-// checkChans: the constructor creates the three signalling channels (a nil
-// channel makes close panic and a receive block forever).
-func (x *c12) checkChans() {
-	r, p := x.r, x.p
-	for _, f := range []FieldID{x.cmStopped, x.cmCloseCh, x.cmCloseFatal} {
-		made := false
-		allInstrs(x.cmNew, func(in ssa.Instruction) {
-			st, ok := in.(*ssa.Store)
-			if !ok {
-				return
+// isDerefOf: every static root of v is a dereference *p of the parameter pa
+// (however v travelled: captured variable, helper parameter, temporary).
+func (x *c12) isDerefOf(st *xState, v xVal, pa *ssa.Parameter) bool {
+	var roots []ssa.Value
+	if v.K == xAtom && v.V != nil {
+		if u, ok := v.V.(*ssa.UnOp); ok && u.Op == token.MUL {
+			// *addr: where does addr come from?
+			var ar []ssa.Value
+			switch {
+			case v.Base != nil:
+				ar = st.Static(*v.Base)
+			case v.F != nil:
+				ar = st.Static(st.EvalIn(v.F, u.X))
+			default:
+				ar = c12Roots(u.X, nil)
 			}
-			fa, ok := st.Addr.(*ssa.FieldAddr)
-			if !ok || fieldIDOfAddr(fa) != f {
-				return
-			}
-			for _, root := range c12Roots(st.Val, nil) {
-				if _, ok := root.(*ssa.MakeChan); ok {
-					made = true
+			ar = x.throughFields(ar, 0)
+			if len(ar) > 0 {
+				all := true
+				for _, r := range ar {
+					if r != ssa.Value(pa) {
+						all = false
+					}
+				}
+				if all {
+					return true
 				}
 			}
+		}
+	}
+	roots = st.Static(v)
+	if len(roots) == 0 {
+		return false
+	}
+	for _, r := range roots {
+		u, ok := r.(*ssa.UnOp)
+		if !ok || u.Op != token.MUL {
+			return false
+		}
+		ar := x.throughFields(c12Roots(u.X, nil), 0)
+		if len(ar) == 0 {
+			return false
+		}
+		for _, a := range ar {
+			if a != ssa.Value(pa) {
+				return false
+			}
+		}
+	}
+	return true
+}
+
+func (x *c12) checkConstructor() {
+	p := x.p
+	fn := x.cmNew
+	fname := FuncName(p, fn)
+	var grace *ssa.Parameter
+	for _, pa := range fn.Params {
+		if pt, ok := pa.Type().Underlying().(*types.Pointer); ok && namedKey(pt.Elem()) == "time.Duration" {
+			grace = pa
+		}
+	}
+	if grace == nil {
+		x.undecide("NewRunnerCloserManager no longer takes the grace period as *time.Duration")
+		return
+	}
+	// functions that call the fatal shutdown function
+	callers := map[*ssa.Function]bool{}
+	for _, f := range p.FuncsOfPkg("concurrency") {
+		allInstrs(f, func(in ssa.Instruction) {
+			ci, ok := in.(ssa.CallInstruction)
+			if !ok || ci.Common().IsInvoke() {
+				return
+			}
+			if id, _, ok := fieldOfValue(ci.Common().Value); ok && id == x.cmFatalFn {
+				callers[f] = true
+			}
 		})
-		r.Check(made, "C12.K4-chans", FuncName(p, x.cmNew)+" makes "+f.Field, p.Pos(x.cmNew.Pos()), "channel created by the constructor",
-			"the constructor no longer creates "+f.Field+": closing a nil channel panics and waiting on it blocks forever (Close / the stop runner / the fatal closer)")
+	}
+	cFatal := "concurrency fatal closer: fatalShutdownFn on timer case"
+	cReg := fname + " registers fatal closer iff grace period"
+	x.seen("C12.K5-fatal", cFatal, p.Pos(fn.Pos()))
+	x.seen("C12.K5-fatal", cReg, p.Pos(fn.Pos()))
+	if len(callers) == 0 {
+		x.bad("C12.K5-fatal", cFatal, p.Pos(fn.Pos()), "the fatal shutdown function is never called: closers that outlast the grace period are not cut short")
+		return
+	}
+	isFatalCloser := func(f *ssa.Function) bool {
+		for g := range x.tree(f) {
+			if callers[g] {
+				return true
+			}
+		}
+		return false
+	}
+	const (
+		bNonNil = 1 << 0
+		bNil    = 1 << 1
+		bReg    = 1 << 2
+	)
+	var fatalFns []*ssa.Function
+	cl := &xClient{NoInline: func(f *ssa.Function) bool { return x.anchors[f] && f != fn }}
+	cl.OnBranch = func(st *xState, ifi *ssa.If, cond xVal, truth bool) bool {
+		if cond.K == xCmp && (cond.Op == token.EQL || cond.Op == token.NEQ) {
+			a, b := *cond.X, *cond.Y
+			if a.K == xNil {
+				a, b = b, a
+			}
+			if b.K == xNil && a.K == xAtom && a.V == ssa.Value(grace) {
+				if (cond.Op == token.EQL) == truth {
+					st.Client |= bNil
+				} else {
+					st.Client |= bNonNil
+				}
+			}
+		}
+		return true
+	}
+	cl.OnInstr = func(st *xState, in ssa.Instruction, replay bool) bool {
+		call, ok := in.(*ssa.Call)
+		if !ok || staticCallee(call) != x.cmAddCloser || len(call.Call.Args) < 2 {
+			return true
+		}
+		vals, ok := varargValues(st, st.fr, call.Call.Args[1])
+		if !ok {
+			x.undecide("%s: cannot see what is registered with AddCloser at %s", fname, x.pos(in))
+			return true
+		}
+		for _, v := range vals {
+			f := funcOfValue(v)
+			if f == nil || !isFatalCloser(f) {
+				continue
+			}
+			seen := false
+			for _, g := range fatalFns {
+				if g == f {
+					seen = true
+				}
+			}
+			if !seen {
+				fatalFns = append(fatalFns, f)
+			}
+			if st.Client&bNonNil == 0 {
+				x.bad("C12.K5-fatal", cReg, x.pos(in), "the fatal closer is registered at "+x.pos(in)+" on a path that has not established gracePeriod != nil: with the grace period unset it dereferences nil / fires although no grace period applies")
+			}
+			st.Client |= bReg
+		}
+		return true
+	}
+	chanFields := []FieldID{x.cmStopped, x.cmCloseCh, x.cmCloseFatal}
+	for _, f := range chanFields {
+		x.seen("C12.K4-chans", fname+" makes "+x.roleName(f), p.Pos(fn.Pos()))
+	}
+	cl.OnReturn = func(st *xState, ret *ssa.Return, res []xVal) {
+		if st.Client&bNonNil != 0 && st.Client&bReg == 0 {
+			x.bad("C12.K5-fatal", cReg, x.pos(ret), "the constructor can return at "+x.pos(ret)+" with a grace period set but without having registered the fatal-shutdown closer: the fatal action never fires")
+		}
+		for _, f := range chanFields {
+			v, ok := st.cells[xCell{fld: f, idx: -1}]
+			made := false
+			if ok && v.K == xAtom {
+				_, made = v.V.(*ssa.MakeChan)
+			}
+			if !made {
+				x.bad("C12.K4-chans", fname+" makes "+x.roleName(f), x.pos(ret), "the constructor can return at "+x.pos(ret)+" without having created the channel "+f.Field+": closing a nil channel panics and waiting on it blocks forever (Close / the stop runner / the fatal closer)")
+			}
+		}
+	}
+	ex := newXplorer(p, x.ssaPkg, cl)
+	ex.Explore(fn, nil, 0)
+	if len(fatalFns) == 0 {
+		x.bad("C12.K5-fatal", cReg, p.Pos(fn.Pos()), "the constructor no longer registers the fatal-shutdown closer with AddCloser: the fatal action never fires")
+	}
+	// every caller of the fatal function must belong to a registered fatal closer
+	covered := map[*ssa.Function]bool{}
+	for _, f := range fatalFns {
+		for g := range x.tree(f) {
+			covered[g] = true
+		}
+	}
+	for f := range callers {
+		if !covered[f] {
+			x.bad("C12.K5-fatal", cFatal, p.Pos(f.Pos()), "the fatal shutdown function is called in "+FuncName(p, f)+", outside the fatal closer's select on the grace timer: it fires regardless of whether the closers outlasted the grace period")
+		}
+	}
+	for _, f := range fatalFns {
+		x.checkFatalCloser(f, grace, cFatal)
+	}
+}
+
+// roleName: position- and name-free label of a channel role.
+func (x *c12) roleName(f FieldID) string {
+	switch f {
+	case x.cmStopped:
+		return "shutdown channel"
+	case x.cmCloseCh:
+		return "close channel"
+	case x.cmCloseFatal:
+		return "fatal release channel"
+	}
+	return f.Field
+}
+
+func (x *c12) checkFatalCloser(f *ssa.Function, grace *ssa.Parameter, construct string) {
+	const (
+		bTimer   = 1 << 0
+		bRelease = 1 << 1
+		bOther   = 1 << 2
+		bFired   = 1 << 3
+		bInSel   = 1 << 4
+	)
+	sawTimer, sawRelease := false, false
+	cl := &xClient{NoInline: x.noInline}
+	cl.OnSelect = func(st *xState, sel *ssa.Select, k int) bool {
+		hasRelease, timerIdx := false, -1
+		for i, sc := range sel.States {
+			if sc.Dir != types.RecvOnly {
+				continue
+			}
+			if x.isField(st, sc.Chan, x.cmCloseFatal) {
+				hasRelease = true
+			} else if _, ok := x.timerDurationOf(st, sc.Chan); ok {
+				timerIdx = i
+			}
+		}
+		if !hasRelease && timerIdx < 0 {
+			return true // an unrelated select
+		}
+		st.Client &^= bTimer | bRelease | bOther
+		st.Client |= bInSel
+		switch {
+		case k >= 0 && k == timerIdx:
+			sawTimer = true
+			st.Client |= bTimer
+			d, _ := x.timerDurationOf(st, sel.States[k].Chan)
+			if !x.isDerefOf(st, d, grace) {
+				x.bad("C12.K5-fatal", construct, x.pos(sel), "the timer of the fatal closer at "+x.pos(sel)+" is not set to *gracePeriod (the constructor's grace period): the fatal action fires earlier or later than the grace period")
+			}
+		case k >= 0 && sel.States[k].Dir == types.RecvOnly && x.isField(st, sel.States[k].Chan, x.cmCloseFatal):
+			sawRelease = true
+			st.Client |= bRelease
+		default:
+			st.Client |= bOther
+		}
+		if !hasRelease {
+			x.bad("C12.K5-fatal", construct, x.pos(sel), "the select around the fatal shutdown call has no case on the release channel: the fatal closer can only end through its timer, so the fatal action fires even when all closers finished in time")
+		}
+		if timerIdx < 0 {
+			x.bad("C12.K5-fatal", construct, x.pos(sel), "the select of the fatal closer has no grace-timer case")
+		}
+		return true
+	}
+	cl.OnInstr = func(st *xState, in ssa.Instruction, replay bool) bool {
+		ci, ok := in.(ssa.CallInstruction)
+		if !ok || ci.Common().IsInvoke() {
+			return true
+		}
+		if _, isDefer := in.(*ssa.Defer); isDefer && !replay {
+			return true
+		}
+		if id, _, ok := fieldOfValue(ci.Common().Value); !ok || id != x.cmFatalFn {
+			return true
+		}
+		if st.Client&bTimer == 0 {
+			x.bad("C12.K5-fatal", construct, x.pos(in), "the fatal shutdown function is called at "+x.pos(in)+" on a path that did not take the grace-timer case of the select (e.g. when the release channel is closed, or unconditionally): it fires although the closers finished within the grace period")
+		}
+		st.Client |= bFired
+		return true
+	}
+	cl.OnReturn = func(st *xState, ret *ssa.Return, _ []xVal) {
+		if st.Client&bTimer != 0 && st.Client&bFired == 0 {
+			x.bad("C12.K5-fatal", construct, x.pos(ret), "the grace timer case can return at "+x.pos(ret)+" without calling the fatal shutdown function: closers outlasting the grace period are not cut short")
+		}
+	}
+	ex := newXplorer(x.p, x.ssaPkg, cl)
+	ex.Explore(f, nil, 0)
+	if !sawTimer || !sawRelease {
+		x.bad("C12.K5-fatal", construct, x.p.Pos(f.Pos()), "the fatal closer does not wait in a select with both a grace-timer case and a case on the release channel")
 	}
 }
 
 func (x *c12) notes() {
 	r, p := x.r, x.p
-	// RunnerManager.Run reads runners without the lock
 	unlocked := false
-	for _, a := range FieldAccesses(x.rmRun, func(id FieldID) bool { return id == x.rmRunners }) {
-		if x.e.At(a.Instr)[x.lockID] == ModeNone {
-			unlocked = true
+	for f := range x.tree(x.rmRun) {
+		for _, a := range FieldAccesses(f, func(id FieldID) bool { return id == x.rmRunners }) {
+			if x.e.At(a.Instr)[x.lockID] == ModeNone {
+				unlocked = true
+			}
 		}
 	}
 	if unlocked {
-		r.Note("RunnerManager.Run reads `runners` without RunnerManager.lock: an Add racing the start of Run (it passed running.Load() before Run's CompareAndSwap) can append after the spawn loop, and the collection loop then waits for one result too many. Outside the statement's quantifier (no Add concurrent with the start of Run); not armed.")
+		r.Note("RunnerManager.Run reads the runners without the manager's lock: an Add racing the start of Run (it passed running.Load() before Run's CompareAndSwap) can append after the spawn loop, and the collection loop then waits for one result too many. Outside the statement's quantifier (no Add concurrent with the start of Run); not armed.")
 	}
-	// RunnerCloserManager.Add: own running test
-	unset := c12UnsetEdges(x.cmAdd, x.cmRunning)
-	allInstrs(x.cmAdd, func(in ssa.Instruction) {
-		if call, ok := in.(*ssa.Call); ok && callIs(call, x.pkg, "RunnerManager", "Add") && !c12AnyDominates(unset, call.Block()) {
-			r.Note("RunnerCloserManager.Add forwards to the inner manager at %s without testing its own running flag first (good practice; the inner manager's flag is only set once its goroutine runs); not armed.", p.Pos(call.Pos()))
+	tested := false
+	for f := range x.tree(x.cmAdd) {
+		if len(c12FlagCalls(f, x.cmRunning, "Load")) > 0 {
+			tested = true
 		}
-	})
+	}
+	if !tested {
+		r.Note("RunnerCloserManager.Add forwards to the inner manager without testing its own running flag first (good practice; the inner manager's flag is only set once its goroutine runs); not armed (%s).", p.Pos(x.cmAdd.Pos()))
+	}
 }
 
 func (x *c12) fixture() {
 	x.c.Fixture("c12flow", func(fp *Prog, fr *Report) {
 		fe := NewLockEngine(fp)
 		fe.Run()
-		fx := &c12{r: fr, p: fp, e: fe, pkg: fp.ModPath, lockID: fp.ModPath + ".mgr.mu"}
+		var anyFn *ssa.Function
+		for _, fn := range fp.Funcs {
+			if fn.Pkg != nil {
+				anyFn = fn
+			}
+		}
+		if anyFn == nil {
+			return
+		}
+		fx := &c12{r: fr, p: fp, e: fe, pkg: fp.ModPath, ssaPkg: anyFn.Pkg, viol: map[string]map[string]bool{}, posn: map[string]string{}, und: map[string]bool{}, anchors: map[*ssa.Function]bool{}}
 		tasks := FieldID{fp.ModPath + ".mgr", "tasks"}
 		items := FieldID{fp.ModPath + ".mgr", "items"}
 		flag := FieldID{fp.ModPath + ".mgr", "closing"}
+		lock := FieldID{fp.ModPath + ".mgr", "mu"}
+		fx.rmLock, fx.lockID = lock, lock.Type+"."+lock.Field
+		fx.cmClosing = flag
 		for _, fn := range fp.Funcs {
 			if fn.Parent() != nil || fn.Name() == "init" {
 				continue
 			}
 			fname := FuncName(fp, fn)
 			if len(c12GoSites(fn)) > 0 {
-				ws, ok := fx.workers(fn)
-				if !ok {
-					continue
-				}
-				var ch *ssa.MakeChan
-				allInstrs(fn, func(in ssa.Instruction) {
-					if mk, ok := in.(*ssa.MakeChan); ok {
-						ch = mk
-					}
-				})
-				isChRun := func(v ssa.Value) bool { mk, _ := c12ChanRoot(v, nil); return mk == ch }
-				var spawns []*ssa.Go
-				for _, w := range ws {
-					w := w
-					spawns = append(spawns, w.Go)
-					isTask := func(call *ssa.Call) bool {
-						if call.Call.IsInvoke() {
-							return false
-						}
-						_, ok := c12ElemOfField(call.Call.Value, w.Bind, tasks)
-						return ok
-					}
-					res := c12WorkerFlow(fx, w, isTask, func(v ssa.Value) bool { mk, _ := c12ChanRoot(v, w.Bind); return mk == ch }, nil)
-					fr.Check(len(res.Problems) == 0, "worker", w.Name+" once/send", fx.pos(w.Go), "ok", strings.Join(res.Problems, "; "))
-				}
-				recvs, _ := c12Recvs(fx, fn, isChRun)
-				c12CheckCounts(fx, fn, "count", fname+" started==collected", spawns, recvs)
+				fx.fixtureSpawnCollect(fn, fname, tasks)
 				continue
 			}
-			c12CheckFlagUnderLock(fx, fn, "flag", flag, items, "")
+			if len(fn.Params) == 2 {
+				fx.flagUnderLock(fn, "flag", flag, items, lock, nil, "")
+			}
+		}
+		fx.flush()
+	})
+}
+
+func c12GoSites(fn *ssa.Function) []*ssa.Go {
+	var out []*ssa.Go
+	allInstrs(fn, func(in ssa.Instruction) {
+		if g, ok := in.(*ssa.Go); ok {
+			out = append(out, g)
 		}
 	})
+	return out
+}
+
+// fixtureSpawnCollect: the generic spawn/collect rule on a fixture function
+// (workers over field `tasks`, one result each, n results collected).
+func (x *c12) fixtureSpawnCollect(fn *ssa.Function, fname string, tasks FieldID) {
+	cache := c12SpawnCache{}
+	classify := func(f *ssa.Function) (c12WorkerKind, FieldID, bool) { return wkFixture, tasks, true }
+	construct := fname + " started==collected"
+	x.seen("count", construct, x.p.Pos(fn.Pos()))
+	const (
+		shSpawn = 0
+		shRecv  = 3
+	)
+	for n := 0; n <= 3; n++ {
+		n := n
+		cl := &xClient{Lens: map[FieldID]int{tasks: n}}
+		cl.OnInstr = func(st *xState, in ssa.Instruction, replay bool) bool {
+			switch v := in.(type) {
+			case *ssa.Go:
+				x.workerOf(st, v, cache, classify)
+				sp := (st.Client >> shSpawn) & 7
+				st.Client = st.Client&^(7<<shSpawn) | (sp+1)<<shSpawn
+			case *ssa.UnOp:
+				if v.Op == token.ARROW {
+					rc := (st.Client >> shRecv) & 7
+					if rc >= (st.Client>>shSpawn)&7 {
+						x.bad("count", construct, x.pos(in), "receives more results than goroutines started")
+						return false
+					}
+					st.Client = st.Client&^(7<<shRecv) | (rc+1)<<shRecv
+				}
+			}
+			return true
+		}
+		cl.OnReturn = func(st *xState, ret *ssa.Return, _ []xVal) {
+			if (st.Client>>shRecv)&7 != (st.Client>>shSpawn)&7 || int((st.Client>>shSpawn)&7) != n {
+				x.bad("count", construct, x.pos(ret), "returns with started != collected")
+			}
+		}
+		ex := newXplorer(x.p, x.ssaPkg, cl)
+		ex.Explore(fn, nil, 0)
+	}
+	for _, w := range cache {
+		if w == nil {
+			continue
+		}
+		c := w.Name + " once/send"
+		x.seen("worker", c, x.p.Pos(w.Fn.Pos()))
+		for m := range w.Problems {
+			x.bad("worker", c, x.p.Pos(w.Fn.Pos()), m)
+		}
+		if w.Unknown != "" {
+			x.bad("worker", c, x.p.Pos(w.Fn.Pos()), w.Unknown)
+		}
+	}
+	_ = strings.Join
 }
